@@ -1,5 +1,8 @@
 // ======================================================================================
-// units/C15/cfg_merge.rs - ControlFlowGraph::merge.
+// units/C15/cfg_merge.rs - ControlFlowGraph::merge: invariant preservation, no error, and the trace theorem
+// "merging does not change the instruction sequences that can be executed from the entry" (definitions below,
+// lemmas in units/C15/cfg_merge_traces.rs - a unit that imports this file in contracts-only mode gets the
+// definitions and the contract; it includes cfg_merge_traces.rs as well only if it wants to reason with the lemmas).
 //
 // Resource bound.  Merging block s into block m bumps m's instruction counter once per instruction
 // of s (`next_instruction_index + 1`, a machine addition).  The sum of all instruction counters of a
@@ -75,6 +78,152 @@ pub proof fn lemma_budget_two(v: Map<usize, Block>, n: nat, a: usize, b: usize)
     lemma_budget_remove(v.remove(a), n, b);
 }
 
+// ======================================================================================
+// Execution traces (second sentence of property C15, for `merge`).
+//
+// A WALK from the entry is the entry block alone or a walk extended by one out-edge of its last block
+// (`entry_walk`).  A RUN is a walk together with the number n of instructions executed in its last block
+// (`is_run`): executions stop between any two instructions, not only at block ends.  The TRACE of a run
+// (`run_trace`) is what the execution observes, in order: for every instruction its operation and its
+// address (`TraceItem::Ins`; the index - a block-local name that Block::append renumbers - and the comment
+// are not observed), and for every CONDITIONAL edge taken its guard (`TraceItem::Guard`); an unconditional
+// edge contributes nothing.  Phi nodes are not part of a trace (merge keeps the phi nodes of the surviving
+// blocks and drops those of a merged-away block, which has exactly one predecessor: clause `phi`).
+//
+// `exec_equiv(new, old)`: (1) every run of `old` has a run of `new` with the same trace; (2) every run of `new`
+// has a run of `old` with the same trace, and a run of `new` that stops at the end of a block comes from a run
+// of `old` that stops at the end of a block.  ((1) cannot keep block ends: the old run that stops at the
+// end of the block merge glues a successor to has no block-end counterpart, its trace is a proper prefix.)
+// The lemmas are in units/C15/cfg_merge_traces.rs.
+// ======================================================================================
+
+/// what an execution observes
+pub enum TraceItem {
+    /// an instruction is executed: its operation and its address
+    Ins { operation: Operation, address: Option<u64> },
+    /// a conditional edge is taken: its guard
+    Guard { condition: Expression },
+}
+
+/// the observations of the instructions of a block, in order
+#[verifier::opaque]
+pub open spec fn code_of(b: Block) -> Seq<TraceItem> {
+    Seq::new(b.instructions@.len(), |i: int| TraceItem::Ins { operation: b.instructions@[i].operation, address: b.instructions@[i].address })
+}
+
+/// the observation of taking an edge with this condition: its guard, nothing for an unconditional edge
+#[verifier::opaque]
+pub open spec fn guard_of(c: Option<Expression>) -> Seq<TraceItem> {
+    match c {
+        Some(e) => seq![TraceItem::Guard { condition: e }],
+        None => Seq::<TraceItem>::empty(),
+    }
+}
+
+impl ControlFlowGraph {
+    pub open spec fn code_at(&self, k: usize) -> Seq<TraceItem> { code_of(self.graph.vertices@[k]) }
+
+    pub open spec fn guard_at(&self, h: usize, t: usize) -> Seq<TraceItem> { guard_of(self.graph.edges@[(h, t)].condition) }
+
+    /// w is a walk from the entry: the entry block alone, or a walk extended by one out-edge of its last block
+    #[verifier::opaque]
+    pub open spec fn entry_walk(&self, w: Seq<usize>) -> bool
+        decreases w.len(),
+    {
+        if w.len() == 0 {
+            false
+        } else if w.len() == 1 {
+            self.entry == Some(w[0]) && self.has_block(w[0])
+        } else {
+            self.entry_walk(w.drop_last()) && self.has_edge(w[w.len() - 2], w.last()) && self.has_block(w.last())
+        }
+    }
+
+    /// what is observed along w before the first instruction of its last block: the complete blocks and the guards taken
+    #[verifier::opaque]
+    pub open spec fn walk_prefix_trace(&self, w: Seq<usize>) -> Seq<TraceItem>
+        decreases w.len(),
+    {
+        if w.len() <= 1 {
+            Seq::<TraceItem>::empty()
+        } else {
+            self.walk_prefix_trace(w.drop_last()) + self.code_at(w[w.len() - 2]) + self.guard_at(w[w.len() - 2], w.last())
+        }
+    }
+
+    /// a run: a walk from the entry and the number of instructions executed in its last block
+    pub open spec fn is_run(&self, w: Seq<usize>, n: int) -> bool {
+        self.entry_walk(w) && 0 <= n <= self.code_at(w.last()).len()
+    }
+
+    pub open spec fn run_trace(&self, w: Seq<usize>, n: int) -> Seq<TraceItem> {
+        self.walk_prefix_trace(w) + self.code_at(w.last()).take(n)
+    }
+
+    pub open spec fn run_at_block_end(&self, w: Seq<usize>, n: int) -> bool {
+        n == self.code_at(w.last()).len()
+    }
+
+    /// some run has the trace t (and stops at a block end, when `at_end`)
+    pub open spec fn has_run(&self, t: Seq<TraceItem>, at_end: bool) -> bool {
+        exists|w: Seq<usize>, n: int| #[trigger] self.is_run(w, n) && self.run_trace(w, n) == t && (at_end ==> self.run_at_block_end(w, n))
+    }
+
+    /// every run of self has a run of o with the same trace (block ends to block ends, when `keep_ends`)
+    pub open spec fn simulated_by(&self, o: ControlFlowGraph, keep_ends: bool) -> bool {
+        forall|w: Seq<usize>, n: int| #[trigger] self.is_run(w, n) ==> o.has_run(self.run_trace(w, n), keep_ends && self.run_at_block_end(w, n))
+    }
+
+    /// self (new) and old have the same executions from the entry (see the header)
+    #[verifier::opaque]
+    pub open spec fn exec_equiv(&self, old: ControlFlowGraph) -> bool {
+        old.simulated_by(*self, false) && self.simulated_by(old, true)
+    }
+
+    /// block s can be merged into block m: m -> s is the only edge out of m, it is unconditional, it is the only
+    /// edge into s, m != s and s is not the entry.  (What `merge` checks before it lists the pair (m, s).)
+    #[verifier::opaque]
+    pub open spec fn mergeable(&self, m: usize, s: usize) -> bool {
+        &&& m != s
+        &&& self.has_block(m) && self.has_block(s)
+        &&& self.has_edge(m, s) && self.graph.edges@[(m, s)].condition is None
+        &&& forall|t: usize| #[trigger] self.has_edge(m, t) ==> t == s
+        &&& forall|p: usize| #[trigger] self.has_edge(p, s) ==> p == m
+        &&& self.entry != Some(s)
+    }
+
+    /// self is `pre` after the elementary step "merge s into m": block s is gone, block m holds the code of m
+    /// followed by the code of s, every other block keeps its code; the edges into / out of s are gone, every edge
+    /// s -> t has become an edge m -> t with the same condition, every other edge is kept with its condition; same entry.
+    #[verifier::opaque]
+    pub open spec fn merge_step_of(&self, pre: ControlFlowGraph, m: usize, s: usize) -> bool {
+        &&& self.entry == pre.entry
+        &&& forall|k: usize| #[trigger] self.has_block(k) <==> (pre.has_block(k) && k != s)
+        &&& forall|k: usize| #[trigger] self.has_block(k) && k != m ==> self.code_at(k) == pre.code_at(k)
+        &&& self.code_at(m) == pre.code_at(m) + pre.code_at(s)
+        &&& forall|a: usize, b: usize| #[trigger] self.has_edge(a, b) <==> (a != s && b != s && (pre.has_edge(a, b) || (a == m && pre.has_edge(s, b))))
+        &&& forall|a: usize, b: usize| #[trigger] self.has_edge(a, b) && a != m ==> self.graph.edges@[(a, b)].condition == pre.graph.edges@[(a, b)].condition
+        &&& forall|b: usize| #[trigger] self.has_edge(m, b) ==> self.graph.edges@[(m, b)].condition == pre.graph.edges@[(s, b)].condition
+    }
+}
+
+/// the pairs do not share a block
+pub open spec fn pairs_disjoint(p: (usize, usize), q: (usize, usize)) -> bool {
+    p.0 != q.0 && p.0 != q.1 && p.1 != q.0 && p.1 != q.1
+}
+
+/// the merge list from position `from` on: every pair is mergeable in g, no two pairs of the whole list share a block
+#[verifier::opaque]
+pub open spec fn merge_list_ok(g: ControlFlowGraph, mq: Seq<(usize, usize)>, from: int) -> bool {
+    &&& forall|i: int| from <= i < mq.len() ==> g.mergeable((#[trigger] mq[i]).0, mq[i].1)
+    &&& forall|i: int, j: int| 0 <= i < j < mq.len() ==> pairs_disjoint(#[trigger] mq[i], #[trigger] mq[j])
+}
+
+/// every block of a listed pair is in the set
+pub open spec fn merge_list_covered(mq: Seq<(usize, usize)>, bbm: Set<usize>) -> bool {
+    forall|i: int| 0 <= i < mq.len() ==> bbm.contains((#[trigger] mq[i]).0) && bbm.contains(mq[i].1)
+}
+
 /// merge step 1: block m has absorbed the instructions of block s
 pub proof fn lemma_merge_append_step(pre: ControlFlowGraph, post: ControlFlowGraph, m: usize, s: usize)
     requires
@@ -133,10 +282,19 @@ pub proof fn lemma_merge_remove_step(pre: ControlFlowGraph, post: ControlFlowGra
 }
 
 impl ControlFlowGraph {
+    /// the phi nodes of every block of self are those the block has in `old`
+    pub open spec fn phi_nodes_kept(&self, old: ControlFlowGraph) -> bool {
+        forall|k: usize| #![trigger self.graph.vertices@[k]] self.graph.vertices@.contains_key(k) ==>
+            old.graph.vertices@.contains_key(k) && self.graph.vertices@[k].phi_nodes == old.graph.vertices@[k].phi_nodes
+    }
+
 //@ source lib/il/control_flow_graph.rs
 //@ fn impl ControlFlowGraph :: fn merge loops=5
 //@ rewrite 1 `for block in self.blocks() {` => `let bs__ = self.blocks(); let mut bi__: usize = 0; while bi__ < bs__.len() { let block = bs__[bi__]; bi__ += 1;` ## R-for-to-while: `for x in VEC { BODY }` over a vector of references is the index loop that binds x to the elements in order; the index is advanced before BODY so that `continue` proceeds to the next element exactly as in the for loop (Verus: "for-loops do not yet support continue")
 //@ rewrite 1 `for (merge_index, successor_index) in merges {` => `for (merge_index, successor_index) in it1: merges {` ## R-ghost-iter-name: names the ghost iterator of the for loop; no executable change
+//@ rewrite 1 `for edge in self.graph.edges_out(successor_index).unwrap() {` => `let eo__ = self.graph.edges_out(successor_index).unwrap(); for edge in it3: eo__ {` ## R-let-temp: gives the temporary vector a name (and names the ghost iterator) so that ghost code can mention the enumeration; evaluation order and values are unchanged
+//@ rewrite 1 `let mut new_edges = Vec::new();` => `let mut new_edges: Vec<Edge> = Vec::new();` ## R-type-annot: writes down the element type rustc infers for `new_edges` (Edge::new results are pushed); needed because the invariant mentions it before the first `push`
+//@ rewrite 1 `for edge in new_edges {` => `for edge in it4: new_edges {` ## R-ghost-iter-name: names the ghost iterator of the for loop; no executable change
 //@ spec
     requires old(self).cfg_wf(), old(self).instr_budget() <= usize::MAX,
     ensures
@@ -146,19 +304,30 @@ impl ControlFlowGraph {
         /*@blocks*/ forall|k: usize| #![trigger final(self).graph.vertices@.contains_key(k)] final(self).graph.vertices@.contains_key(k) ==> old(self).graph.vertices@.contains_key(k),
         /*@counters*/ final(self).next_index == old(self).next_index && final(self).next_temp_index == old(self).next_temp_index && final(self).ssa_form == old(self).ssa_form,
         /*@budget*/ r is Ok ==> final(self).instr_budget() <= old(self).instr_budget(),
+        /*@executions*/ final(self).exec_equiv(*old(self)),
+        /*@phi*/ final(self).phi_nodes_kept(*old(self)),
+        /*@ok*/ r is Ok,
+//@ enter
+    proof { lemma_exec_equiv_refl(*self); }
 //@ loop 0
     invariant
         self.cfg_wf(), self.instr_budget() <= old(self).instr_budget(), old(self).instr_budget() <= usize::MAX,
         self.entry == old(self).entry, (self.exit is Some) == (old(self).exit is Some),
         forall|k: usize| #![trigger self.graph.vertices@.contains_key(k)] self.graph.vertices@.contains_key(k) ==> old(self).graph.vertices@.contains_key(k),
         self.next_index == old(self).next_index, self.next_temp_index == old(self).next_temp_index, self.ssa_form == old(self).ssa_form,
+        self.exec_equiv(*old(self)),
+        self.phi_nodes_kept(*old(self)),
     decreases self.graph.vertices@.len(),
+//@ before 0 `let bs__`
+    proof { lemma_merge_list_empty(*self); }
 //@ loop 1
     invariant
         self.cfg_wf(),
         bi__ <= bs__@.len(),
         self.graph.lists_vertices(bs__@, |k: usize| true),
         forall|i: int| 0 <= i < merges@.len() ==> (#[trigger] merges@[i]).0 != merges@[i].1 && self.entry != Some(merges@[i].1),
+        merge_list_ok(*self, merges@, 0),
+        merge_list_covered(merges@, blocks_being_merged@),
     decreases bs__@.len() - bi__,
 //@ before 0 `let successors = self.graph.edges_out(block.index()).unwrap();`
     proof {
@@ -172,6 +341,11 @@ impl ControlFlowGraph {
     }
 //@ closure 0 |entry: usize| -> (b: bool)
     ensures b == (entry == successor),
+//@ before 0 `blocks_being_merged.insert(block.index());`
+    proof {
+        lemma_mergeable_intro(*self, successors@, predecessors@, block.index_spec(), successor);
+        lemma_merge_list_push(*self, merges@, blocks_being_merged@, block.index_spec(), successor);
+    }
 //@ before 0 `for (merge_index, successor_index) in it1`
     let ghost len0 = self.graph.vertices@.len();
     let ghost mq = merges@;
@@ -184,10 +358,15 @@ impl ControlFlowGraph {
         forall|k: usize| #![trigger self.graph.vertices@.contains_key(k)] self.graph.vertices@.contains_key(k) ==> old(self).graph.vertices@.contains_key(k),
         self.next_index == old(self).next_index, self.next_temp_index == old(self).next_temp_index, self.ssa_form == old(self).ssa_form,
         self.graph.vertices@.len() + it1.index@ == len0,
+        merge_list_ok(*self, mq, it1.index@ as int),
+        self.exec_equiv(*old(self)),
+        self.phi_nodes_kept(*old(self)),
 //@ before 0 `let successor_block = self.graph.vertex(successor_index)?.clone();`
     let ghost pre = *self;
     proof {
-        assert(mq[it1.index@] == (merge_index, successor_index));
+        assert(mq[it1.index@ as int] == (merge_index, successor_index));
+        lemma_merge_list_head(pre, mq, it1.index@ as int);
+        lemma_mergeable_facts(pre, merge_index, successor_index);
     }
 //@ before 0 `self.graph.vertex_mut(merge_index)?.append(&successor_block);`
     proof {
@@ -195,26 +374,65 @@ impl ControlFlowGraph {
             lemma_merge_append_pre(*self, merge_index, successor_index);
         }
     }
-//@ before 0 `let mut new_edges = Vec::new();`
+//@ before 0 `let mut new_edges: Vec<Edge> = Vec::new();`
     proof {
         lemma_merge_append_step(pre, *self, merge_index, successor_index);
     }
     let ghost mid = *self;
+//@ before 0 `for edge in it3`
+    let ghost eos = eo__@;
 //@ loop 3
     invariant
         self.cfg_wf(), *self == mid,
+        it3.seq() == eos,
+        new_edges@.len() == it3.index@,
+        forall|j: int| 0 <= j < it3.index@ ==> #[trigger] new_edges@[j] == reattached(*eos[j], merge_index),
+//@ before 0 `for edge in it4`
+    let ghost ne = new_edges@;
+    proof {
+        lemma_merge_new_edges(mid, eos, ne, merge_index, successor_index);
+        lemma_merge_edges_init(mid, ne, merge_index);
+        assert forall|t: usize| #[trigger] mid.has_edge(merge_index, t) implies t == successor_index by {
+            assert(pre.has_edge(merge_index, t));
+        }
+    }
 //@ loop 4
     invariant
         self.cfg_wf(), self.graph.vertices@ == mid.graph.vertices@, self.same_scalars(mid),
         mid.entry == old(self).entry, (mid.exit is Some) == (old(self).exit is Some),
         forall|k: usize| #![trigger mid.graph.vertices@.contains_key(k)] mid.graph.vertices@.contains_key(k) ==> old(self).graph.vertices@.contains_key(k),
         mid.next_index == old(self).next_index, mid.next_temp_index == old(self).next_temp_index, mid.ssa_form == old(self).ssa_form,
+        it4.seq() == ne,
+        mid.cfg_wf(), mid.graph.vertices@.contains_key(merge_index),
+        mid.graph.edges == pre.graph.edges,
+        !mid.has_edge(successor_index, successor_index),
+        forall|t: usize| #[trigger] mid.has_edge(merge_index, t) ==> t == successor_index,
+        merge_new_edges(mid, ne, merge_index, successor_index),
+        merge_edges_inv(*self, mid, ne, it4.index@ as int, merge_index),
+//@ before 0 `self.graph.insert_edge(edge)?;`
+    let ghost before_ins = *self;
+    proof {
+        assert(edge == ne[it4.index@ as int]);
+        lemma_merge_edges_fresh(before_ins, mid, ne, it4.index@ as int, merge_index, successor_index);
+    }
+//@ after 0 `self.graph.insert_edge(edge)?;`
+    proof {
+        lemma_merge_edges_step(before_ins, *self, mid, ne, it4.index@ as int, merge_index, successor_index);
+    }
+//@ before 0 `if self.exit == Some(successor_index) {`
+    let ghost ins = *self;
 //@ before 0 `self.graph.remove_vertex(successor_index)?;`
     let ghost pre_rm = *self;
 //@ after 0 `self.graph.remove_vertex(successor_index)?;`
     proof {
         lemma_merge_remove_step(pre_rm, *self, successor_index);
         assert(pre.graph.vertices@[successor_index].block_wf());
+        lemma_merge_step_done(pre, mid, ins, *self, ne, merge_index, successor_index);
+        if self.merge_step_of(pre, merge_index, successor_index) {
+            lemma_merge_step_equiv(pre, *self, merge_index, successor_index);
+            lemma_exec_equiv_trans(*self, pre, *old(self));
+            lemma_merge_list_advance(pre, *self, mq, it1.index@ as int);
+        }
     }
 //@ end
 }
